@@ -17,6 +17,7 @@ import (
 	"io/ioutil"
 	"math/rand"
 	"regexp"
+	"runtime/debug"
 	"strings"
 	"sync"
 	"sync/atomic"
@@ -28,7 +29,6 @@ import (
 	"git.arvados.org/arvados.git/lib/dispatchcloud/worker"
 	"git.arvados.org/arvados.git/sdk/go/arvados"
 	"golang.org/x/crypto/ssh"
-	"verif.local/vcommon/stats"
 )
 
 type vEventRec struct {
@@ -59,6 +59,7 @@ type vDecision struct {
 	it     string
 	pre    map[cloud.InstanceID]vInstView
 	result int // -1 pending, 0 refused, 1 accepted
+	claimed bool // a pool-side --detach call has been attributed to it
 }
 
 type vVMInfo struct {
@@ -130,15 +131,16 @@ type vMonitor struct {
 	// client-side view of "crunch-run --detach" calls that have not returned
 	// to the pool yet (key vm/uuid), for the double-Close defect classifier
 	inflight        map[string]int
+	inflightDec     map[string]*vDecision // the StartContainer decision behind an in-flight --detach
 	seenDuringStart map[string]bool
-	hidCounted      map[string]bool
 	forceList       map[string]bool
 	staleLockTO   time.Duration
 	bootTO        time.Duration
 	rng           *rand.Rand // VM plans beyond the scenario's list; guarded by mu
 
-	bugMu    sync.Mutex
-	bugs     []string
+	bugMu         sync.Mutex
+	bugs          []string
+	harnessPanics []string
 	crashes  int64 // CrashRunningContainer calls
 	finished int64 // ExecuteContainer returns
 	done     int32 // scenario over: release hung stub processes
@@ -164,6 +166,19 @@ func (m *vMonitor) violate(format string, args ...interface{}) {
 	m.ev(m.curGen, "VIOLATION", "", "", s)
 	if len(m.violations) < 50 {
 		m.violations = append(m.violations, s)
+	}
+}
+
+// guard recovers a panic of harness code running on a goroutine the harness
+// does not own and records it as an infrastructure problem.
+func (m *vMonitor) guard(where string, after func()) {
+	if r := recover(); r != nil {
+		m.bugMu.Lock()
+		m.harnessPanics = append(m.harnessPanics, fmt.Sprintf("VERIF-INFRA: panic in %s: %v\n%s", where, r, debug.Stack()))
+		m.bugMu.Unlock()
+		if after != nil {
+			after()
+		}
 	}
 }
 
@@ -270,6 +285,7 @@ func (vi *vInstance) Destroy() error {
 
 // setupVM is StubDriver.SetupVM. NOTE: called with the StubInstanceSet locked.
 func (m *vMonitor) setupVM(svm *test.StubVM) {
+	defer m.guard("setupVM", nil)
 	m.mu.Lock()
 	ord := len(m.vmByOrd)
 	plan := m.sc.planFor(ord, m.rng)
@@ -308,7 +324,8 @@ func (m *vMonitor) setupVM(svm *test.StubVM) {
 }
 
 // executeContainer is the payload of the fake crunch-run (state is Running).
-func (m *vMonitor) executeContainer(info *vVMInfo, ctr arvados.Container) int {
+func (m *vMonitor) executeContainer(info *vVMInfo, ctr arvados.Container) (rc int) {
+	defer m.guard("executeContainer", nil)
 	defer atomic.AddInt64(&m.finished, 1)
 	m.mu.Lock()
 	tr := m.ctrs[ctr.UUID]
@@ -383,7 +400,10 @@ func (m *vMonitor) allLiveProcs() map[string]map[vProcRef]bool {
 }
 
 // exec wraps StubVM.Exec (the VM side of every ssh command).
-func (m *vMonitor) exec(info *vVMInfo, inner test.SSHExecFunc, env map[string]string, command string, stdin io.Reader, stdout, stderr io.Writer) uint32 {
+func (m *vMonitor) exec(info *vVMInfo, inner test.SSHExecFunc, env map[string]string, command string, stdin io.Reader, stdout, stderr io.Writer) (rc uint32) {
+	// a panic in harness (or stub) code on this ssh-server goroutine must not
+	// look like a dispatcher crash
+	defer m.guard("exec wrapper", func() { rc = 255 })
 	sub := vGenRe.FindStringSubmatch(command)
 	if sub == nil {
 		// not issued by a dispatcher of this harness
@@ -440,7 +460,8 @@ func (m *vMonitor) exec(info *vVMInfo, inner test.SSHExecFunc, env map[string]st
 	return inner(env, cmd, stdin, stdout, stderr)
 }
 
-// doubleClose records the (known) worker-pool defect: the runner of a
+// doubleClose records a worker-pool defect (fixed upstream of this harness in
+// /repo commit 6d15d19; kept as a regression detector): the runner of a
 // container was moved to wkr.running by a probe and closed again while its
 // Start() call had not returned; when Start() returns the closed runner is put
 // back and the next closeRunner()/worker.Close() panics ("close of closed
@@ -473,7 +494,7 @@ func (m *vMonitor) listAnswered(info *vVMInfo, gen int, out string) string {
 	}
 	// double-Close classifier (see doubleClose)
 	prefix := string(info.id) + "/"
-	var hide, force []string
+	var force []string
 	for key, n := range m.inflight {
 		if n <= 0 || !strings.HasPrefix(key, prefix) {
 			continue
@@ -481,14 +502,6 @@ func (m *vMonitor) listAnswered(info *vVMInfo, gen int, out string) string {
 		uuid := key[len(prefix):]
 		switch {
 		case m.forceList[key]:
-		case listed[uuid] && stats.KnownActive("pool-double-close-runner"):
-			// known finding: keep the pool from seeing the container
-			// while its start is in flight, so the run can go on
-			hide = append(hide, uuid)
-			if !m.hidCounted[key] {
-				m.hidCounted[key] = true
-				stats.Known("pool-double-close-runner", fmt.Sprintf("%s listed by a probe while --detach in flight (hidden from the answer)", key))
-			}
 		case listed[uuid]:
 			m.seenDuringStart[key] = true
 		case m.seenDuringStart[key]:
@@ -500,22 +513,8 @@ func (m *vMonitor) listAnswered(info *vVMInfo, gen int, out string) string {
 			force = append(force, key[len(prefix):])
 		}
 	}
-	if len(hide) > 0 || len(force) > 0 {
-		var lines []string
-		for _, line := range strings.Split(strings.TrimSuffix(out, "\n"), "\n") {
-			drop := false
-			for _, u := range hide {
-				drop = drop || line == u
-			}
-			if !drop {
-				lines = append(lines, line)
-			}
-		}
-		lines = append(force, lines...)
-		out = strings.Join(lines, "\n") + "\n"
-		for _, u := range hide {
-			delete(listed, u)
-		}
+	if len(force) > 0 {
+		out = strings.Join(force, "\n") + "\n" + out
 	}
 	if !info.listOK[gen] {
 		info.listOK[gen] = true
@@ -569,7 +568,10 @@ func (m *vMonitor) detach(info *vVMInfo, gen int, inner test.SSHExecFunc, env ma
 	}
 	m.detachTotal++
 	seq := m.ev(gen, "detach", vmid, uuid, fmt.Sprintf("state=%s prio=%d", st, prio))
-	dec := m.decisions[uuid]
+	// the decision this command belongs to: noted by the pool-side executor
+	// wrapper when the pool issued the command for this very instance
+	dec := m.inflightDec[vmid+"/"+uuid]
+	anyDecision := m.decisions[uuid] != nil
 	bootOK, listOK := info.bootOK[gen], info.listOK[gen]
 	m.mu.Unlock()
 	m.qmu.Unlock()
@@ -589,6 +591,7 @@ func (m *vMonitor) detach(info *vVMInfo, gen int, inner test.SSHExecFunc, env ma
 	go func() {
 		var res overlapResult
 		defer func() { resCh <- res }()
+		defer m.guard("detach watcher", nil)
 		for {
 			for _, p := range info.svm.VerifProcs() {
 				if p.UUID == uuid && !p.Exited && !before[vProcRef{info.id, p.PID}] {
@@ -676,7 +679,9 @@ func (m *vMonitor) detach(info *vVMInfo, gen int, inner test.SSHExecFunc, env ma
 
 	// --- decision-level checks
 	if dec == nil || dec.gen != gen {
-		m.violate("[excl] crunch-run --detach for %s at %s (seq %d, gen %d) without a StartContainer decision of that dispatcher", uuid, vmid, seq, gen)
+		if !anyDecision {
+			m.violate("[excl] crunch-run --detach for %s at %s (seq %d, gen %d) without a StartContainer decision of that dispatcher", uuid, vmid, seq, gen)
+		}
 		return rc
 	}
 	if dseq, ok := info.destroyCalled[gen]; ok && dseq < dec.seq {
